@@ -8,7 +8,7 @@
    A criterion is one of the five kinds of demand; [crit_satisfies] says when a message meets it; [conj_filter] is
    the subsequence of the messages that meet all of them.  The great-circle distance is a parameter. *)
 From Coq Require Import ZArith List Bool String.
-Require Import Prim.Rat Prim.PyObj.
+Require Import Prim.Exn Prim.Rat Prim.PyObj.
 Import ListNotations.
 Open Scope Z_scope.
 
@@ -25,15 +25,22 @@ Inductive criterion :=
    (type 5, 6, ...) and a position report cut off before its coordinates (lat or lon None) report none. *)
 Definition reported_position (m : pymsg) : option position_t :=
   match py_attr_lookup (pm_attrs m) "lat", py_attr_lookup (pm_attrs m) "lon" with
-  | Some (ANum lat), Some (ANum lon) => Some (lat, lon)
+  | Some (Ok (ANum lat)), Some (Ok (ANum lon)) => Some (lat, lon)
   | _, _ => None
   end.
 
+(* "listed attributes present and not None".  An attribute of a message is PRESENT when the message has a value
+   for it: a stored field, or a computed attribute (is_sotdma, communication_state_raw, ...) that can be evaluated
+   for this message.  A computed attribute that cannot be evaluated for this message -- its getter raises, e.g.
+   because the radio field it is computed from was cut off -- has no value: it is NOT present, whatever the
+   exception is, and the message does not satisfy the criterion.  (This is a statement about the message, written
+   without looking at how NoneFilter reads attributes.) *)
 Definition present_not_none (m : pymsg) (name : string) : bool :=
   match py_attr_lookup (pm_attrs m) name with
-  | None => false          (* absent *)
-  | Some ANone => false    (* present but None *)
-  | Some _ => true
+  | None => false               (* absent *)
+  | Some (Raise _) => false     (* computed, but cannot be evaluated for this message: no value, not present *)
+  | Some (Ok ANone) => false    (* present but None *)
+  | Some (Ok _) => true
   end.
 
 Section Spec.
